@@ -43,6 +43,41 @@ fn ctx_challenge(suite: &str, pkv: &Value, pk_bytes: &[u8], points: &[G1Projecti
     Scalar::from_bytes_wide(&res)
 }
 
+/// model tie: the issuer's context check on this request for these issuer-known indices — same shape decision
+/// (error / wrong response count) and the same recomputed commitment, over the real generators as opaque bases
+fn ctx_model_line<S: ShortGroupSignatureScheme>(em: &mut Emitter, suite: &str, public: &IssuerPublic<S>, issuer: &Issuer<S>, req: &BlindCredentialRequest<S>, known_idx: &[usize]) {
+    use credx::knox::short_group_sig_core::short_group_traits::BlindSignatureContext as _;
+    let pkv = serde_json::to_value(&public.verifying_key).unwrap_or(Value::Null);
+    let gens: Vec<String> = pkv[if suite == "bbs" { "y" } else { "y_blinds" }].as_array().map(|a| a.iter().filter_map(|h| h.as_str().map(|s| s.to_string())).collect()).unwrap_or_default();
+    let v = serde_json::to_value(req).unwrap_or(Value::Null);
+    let ctx = &v["blind_signature_context"];
+    let proofs: Vec<String> = ctx["proofs"].as_array().map(|a| a.iter().filter_map(|x| x.as_str().map(|s| s.to_string())).collect()).unwrap_or_default();
+    let mut bases = gens.clone();
+    let n_extra = if suite == "bbs" { 0 } else { 1 };
+    if n_extra == 1 {
+        bases.push(g1_hex_c(&G1Projective::GENERATOR));
+    }
+    bases.push(ctx["commitment"].as_str().unwrap_or("").to_string());
+    merlin::vlog::take();
+    merlin::vlog::enable(true);
+    let r = call(|| req.blind_signature_context.verify(known_idx, &issuer.signing_key, req.nonce));
+    merlin::vlog::enable(false);
+    let log = merlin::vlog::take();
+    let rc = log.iter().find(|e| e.kind == 0 && e.label == b"random commitment").map(|e| hexs(&e.data));
+    let imp = match (&r, rc) {
+        (Out::Err, _) => "err".to_string(),
+        (Out::Panic(_), _) => "panic".to_string(),
+        (Out::Ok(false), None) => "false".to_string(),
+        (Out::Ok(_), Some(h)) => h,
+        (Out::Ok(true), None) => "true-without-recomputation".to_string(),
+    };
+    let j = |v: &[String]| if v.is_empty() { "-".to_string() } else { v.join(",") };
+    em.op(
+        format!("bl.verify {} {} {} {} {} {}", gens.len(), j(&known_idx.iter().map(|i| i.to_string()).collect::<Vec<_>>()), n_extra, j(&proofs), ctx["challenge"].as_str().unwrap_or("-"), j(&bases)),
+        imp,
+    );
+}
+
 fn run_suite<S: ShortGroupSignatureScheme>(em: &mut Emitter, base: &mut Rng, suite: &str) {
     use credx::knox::short_group_sig_core::short_group_traits::PublicKey as _;
     let off = if suite == "bbs" { 0 } else { 1 };
@@ -120,6 +155,42 @@ fn run_suite<S: ShortGroupSignatureScheme>(em: &mut Emitter, base: &mut Rng, sui
             Ok(x) => x,
             Err(_) => continue,
         };
+        // the public well-formedness check of a request accepts what the honest holder sends
+        em.oracle_case(&format!("{} request-verify {}", suite, k));
+        match call(|| honest_req.verify(&issuer)) {
+            Out::Ok(()) => em.count("request.verify:honest-ok"),
+            o => em.violation("c16:request-verify-rejects-honest", format!("{}: BlindCredentialRequest::verify returns {} for an honest request (blinded labels {:?})", suite, o.class(), hc.keys().collect::<Vec<_>>()), json!({"suite": suite, "request": serde_json::to_value(&honest_req).unwrap_or_default(), "labels": labels})),
+        }
+        // model tie of the issuer-side context check: honest request, wrong index sets, wrong response counts
+        {
+            let known_ix: Vec<usize> = (0..labels.len()).filter(|i| !hc.contains_key(&labels[*i].to_string())).collect();
+            ctx_model_line(em, suite, &public, &issuer, &honest_req, &known_ix);
+            let mut k2 = known_ix.clone();
+            k2.push(labels.len());
+            ctx_model_line(em, suite, &public, &issuer, &honest_req, &k2);
+            if known_ix.len() > 1 {
+                ctx_model_line(em, suite, &public, &issuer, &honest_req, &known_ix[1..]);
+            }
+            let all_ix: Vec<usize> = (0..labels.len()).collect();
+            ctx_model_line(em, suite, &public, &issuer, &honest_req, &all_ix);
+            ctx_model_line(em, suite, &public, &issuer, &honest_req, &[]);
+            let v = serde_json::to_value(&honest_req).unwrap();
+            for delta in [-1i32, 1, 2] {
+                let mut v2 = v.clone();
+                if let Some(a) = v2["blind_signature_context"]["proofs"].as_array_mut() {
+                    if delta < 0 {
+                        a.pop();
+                    } else {
+                        for _ in 0..delta {
+                            a.push(json!(sc_hex(&rng.scalar())));
+                        }
+                    }
+                }
+                if let Ok(r2) = serde_json::from_str::<BlindCredentialRequest<S>>(&v2.to_string()) {
+                    ctx_model_line(em, suite, &public, &issuer, &r2, &known_ix);
+                }
+            }
+        }
         // D1: blind a claim that is not blindable (request built with the knox API directly)
         if let Some(nb) = labels[1..].iter().find(|l| !blindable.contains(l)) {
             let idx = labels.iter().position(|l| l == nb).unwrap();
